@@ -23,6 +23,43 @@ type loopMod struct {
 	// derefRoots: slices loaded inside the loop from a cell allocated before the loop
 	// (a variable captured by a closure); valid only if the loop never writes that cell.
 	derefRoots map[ssa.Value]string // cell pointer -> heap key of the cell
+	// loadRoots: slices/maps loaded inside the loop from a field path of an object
+	// identified before the loop (s.Pending, rc.state.ISR, ...); valid only if the loop
+	// never writes that field.
+	loadRoots []*loadMarker
+}
+
+type loadMarker struct {
+	ssa.Value
+	root ssa.Value
+	path []int
+	key  string
+}
+
+// invariantLoad recognises v = *(&root.f1.f2...) with root defined outside the loop.
+func invariantLoad(v ssa.Value, li *loopInfo) *loadMarker {
+	u, ok := v.(*ssa.UnOp)
+	if !ok || u.Op != token.MUL {
+		return nil
+	}
+	var path []int
+	addr := u.X
+	for {
+		fa, ok := addr.(*ssa.FieldAddr)
+		if !ok {
+			break
+		}
+		path = append([]int{fa.Field}, path...)
+		addr = fa.X
+	}
+	if len(path) == 0 || !definedOutside(addr, li) {
+		return nil
+	}
+	pt, ok := addr.Type().Underlying().(*types.Pointer)
+	if !ok {
+		return nil
+	}
+	return &loadMarker{Value: v, root: addr, path: path, key: heapKeyObj(pt.Elem())}
 }
 
 // derefMarker marks "the value stored in this cell" as a root.
@@ -47,6 +84,9 @@ func sliceRoots(v ssa.Value, li *loopInfo, seen map[ssa.Value]bool) ([]ssa.Value
 	if definedOutside(v, li) {
 		return []ssa.Value{v}, true
 	}
+	if lm := invariantLoad(v, li); lm != nil {
+		return []ssa.Value{lm}, true
+	}
 	switch i := v.(type) {
 	case *ssa.Phi:
 		var out []ssa.Value
@@ -69,8 +109,21 @@ func sliceRoots(v ssa.Value, li *loopInfo, seen map[ssa.Value]bool) ([]ssa.Value
 		return nil, true
 	case *ssa.UnOp:
 		if i.Op == token.MUL && definedOutside(i.X, li) {
-			if _, isAlloc := i.X.(*ssa.Alloc); isAlloc {
-				return []ssa.Value{derefMarker{i.X}}, true
+			if al, isAlloc := i.X.(*ssa.Alloc); isAlloc {
+				// the cell's content at loop entry, plus whatever the loop stores into the cell
+				out := []ssa.Value{derefMarker{i.X}}
+				for _, ref := range *al.Referrers() {
+					st, isStore := ref.(*ssa.Store)
+					if !isStore || st.Addr != al || !li.blocks[st.Block()] {
+						continue
+					}
+					r, ok := sliceRoots(st.Val, li, seen)
+					if !ok {
+						return nil, false
+					}
+					out = append(out, r...)
+				}
+				return out, true
 			}
 		}
 	case *ssa.Call:
@@ -145,6 +198,10 @@ func (x *Exec) loopTargets(fr *Frame, li *loopInfo) (map[string]*loopMod, bool) 
 	}
 	addRoots := func(m *loopMod, roots []ssa.Value, field int) {
 		for _, r := range roots {
+			if lm, ok := r.(*loadMarker); ok {
+				m.loadRoots = append(m.loadRoots, lm)
+				continue
+			}
 			if dm, ok := r.(derefMarker); ok {
 				if m.derefRoots == nil {
 					m.derefRoots = map[ssa.Value]string{}
@@ -195,6 +252,8 @@ func (x *Exec) loopTargets(fr *Frame, li *loopInfo) (map[string]*loopMod, bool) 
 					m := get(k, mt)
 					if definedOutside(i.Map, li) {
 						addRoots(m, []ssa.Value{i.Map}, -1)
+					} else if lm := invariantLoad(i.Map, li); lm != nil {
+						addRoots(m, []ssa.Value{lm}, -1)
 					} else if _, isMake := i.Map.(*ssa.MakeMap); !isMake {
 						m.whole = true
 					}
@@ -246,6 +305,8 @@ func (x *Exec) loopTargets(fr *Frame, li *loopInfo) (map[string]*loopMod, bool) 
 								m := get(k, mt)
 								if definedOutside(cc.Args[0], li) {
 									addRoots(m, []ssa.Value{cc.Args[0]}, -1)
+								} else if lm := invariantLoad(cc.Args[0], li); lm != nil {
+									addRoots(m, []ssa.Value{lm}, -1)
 								} else {
 									m.whole = true
 								}
@@ -271,10 +332,33 @@ func (x *Exec) loopTargets(fr *Frame, li *loopInfo) (map[string]*loopMod, bool) 
 	// cells read as roots must not be written by the loop
 	for _, m := range mods {
 		for cell, ck := range m.derefRoots {
-			if cm := mods[ck]; cm != nil && (cm.whole || len(cm.roots) > 0) {
+			// direct stores `*cell = v` inside the loop were followed by sliceRoots; any
+			// other way of writing cells of this type (unknown pointer, callee) invalidates
+			if cm := mods[ck]; cm != nil && cm.whole {
 				m.whole = true
 			}
 			_ = cell
+		}
+		for _, lm := range m.loadRoots {
+			// the loaded field must not be written by the loop (conservatively: the loop
+			// writes no object of that type through any root, or only other top-level fields
+			// of this very root)
+			cm := mods[lm.key]
+			if cm == nil {
+				continue
+			}
+			if cm.whole {
+				m.whole = true
+				continue
+			}
+			for r, fs := range cm.roots {
+				if r != lm.root || fs == nil || fs[lm.path[0]] {
+					m.whole = true
+				}
+			}
+			if len(cm.derefRoots) > 0 || len(cm.loadRoots) > 0 {
+				m.whole = true
+			}
 		}
 	}
 	return mods, all
@@ -363,6 +447,29 @@ func (x *Exec) loopHavoc(fr *Frame, li *loopInfo, entry, head *State) {
 			cv := x.value(fr, cell)
 			lv := x.loadPlace(entry, x.placeOf(cv))
 			excl = append(excl, "(not (= fr! (s_base "+lv.S+")))")
+		}
+		for _, lm := range m.loadRoots {
+			rv := x.value(fr, lm.root)
+			pl := x.placeOf(rv)
+			okPath := true
+			for _, fi := range lm.path {
+				stT, isStruct := pl.Type().Underlying().(*types.Struct)
+				if !isStruct {
+					okPath = false
+					break
+				}
+				pl = pl.extend(PathSel{Field: fi, T: stT.Field(fi).Type(), From: pl.Type()})
+			}
+			if !okPath {
+				ok = false
+				break
+			}
+			lv := x.loadPlace(entry, pl)
+			if strings.HasPrefix(k, "S:") {
+				excl = append(excl, "(not (= fr! (s_base "+lv.S+")))")
+			} else {
+				excl = append(excl, "(not (= fr! "+lv.S+"))")
+			}
 		}
 		for r, fs := range m.roots {
 			v := x.value(fr, r)
